@@ -105,7 +105,8 @@ func Name(t *rapid.T) string {
 	if rapid.IntRange(0, 3).Draw(t, "namebias") > 0 {
 		return Names[rapid.IntRange(0, 5).Draw(t, "name")]
 	}
-	return rapid.SampledFrom(Names).Draw(t, "name")
+	// the rest uniformly: SampledFrom would favour the first entries again, and the unusual names sit at the end
+	return PickUniform(t, Names, "name")
 }
 
 // Scalar draws a scalar JSON value.
